@@ -1084,6 +1084,12 @@ pub fn gen_pool(seed: u64, n: usize) -> BTreeMap<String, String> {
         }
         k += 2;
     }
+    {
+        let t = crate::corpus::many_matches_text(900);
+        if screen.ok(&t) {
+            pool.insert("deepmany.sol".to_string(), t);
+        }
+    }
     for (k, depth) in [10usize, 18, 26, 32].iter().enumerate() {
         let t = deep_text(*depth, k);
         if screen.ok(&t) {
